@@ -6,6 +6,7 @@ COMMON_ASSUME = [
     "Go standard library (compress/flate, gzip, zlib, hash/crc32, hash/adler32) is correct where used as oracle, except for the documented NewWriterDict stored-block defect",
     "the reference inflater (harness/refinflate) is correct; it is cross-checked against compress/flate on every stream it judges",
     "acceleration levels are forced through the verif-tag hook in internal/cpu; levels the host CPU cannot execute are skipped and listed",
+    "every Write of the writer-side checks hands the Writer a buffer that the harness overwrites as soon as the call returns (as io.Copy and pooled-buffer callers do), so a Writer that retained the slice instead of consuming it would fail the round trip",
 ]
 
 PROPS = {
